@@ -21,6 +21,11 @@ def main():
     s.add_argument("--seeds", type=int, default=400)
     s.add_argument("props", nargs="*")
     sub.add_parser("selfcheck")
+    ca = sub.add_parser("corpus-add")
+    ca.add_argument("replay")
+    ca.add_argument("status", choices=["known", "fixed"])
+    ca.add_argument("name")
+    ca.add_argument("--note", default="")
     o = sub.add_parser("one")
     o.add_argument("prop")
     o.add_argument("seed", type=int)
@@ -40,6 +45,19 @@ def main():
         return engine.check(a.prop, a.tier, seed, runs=a.runs, jobs=a.jobs, write_evidence=not a.no_evidence, keep_going=a.keep_going)
     if a.cmd == "replay":
         return engine.replay(a.path, events=a.events)
+    if a.cmd == "corpus-add":
+        import json
+
+        e = json.load(open(a.replay))
+        e["status"] = a.status
+        e["note"] = a.note
+        d = os.path.join(engine.VERIF, "replays", "corpus", e["property"])
+        os.makedirs(d, exist_ok=True)
+        with open(os.path.join(d, a.name + ".json"), "w") as f:
+            json.dump(e, f, indent=1, sort_keys=True)
+            f.write("\n")
+        print("added", os.path.join(d, a.name + ".json"))
+        return 0
     if a.cmd == "one":
         import json
 
